@@ -56,7 +56,7 @@ type TLSConfig struct {
 	// tlsConfig is the internal Go TLS configuration
 	tlsConfig   *tls.Config
 	mu          sync.RWMutex
-	currentCert atomic.Pointer[tls.Certificate] // atomically updated for concurrent reads
+	currentCert *atomic.Pointer[tls.Certificate] // shared with clones; atomically updated for concurrent reads
 }
 
 // DefaultTLSConfig returns a TLS configuration with secure defaults
@@ -154,14 +154,23 @@ func (tc *TLSConfig) BuildConfig() (*tls.Config, error) {
 	}
 
 	// Store cert atomically for concurrent-safe access
-	tc.currentCert.Store(&cert)
+	if tc.currentCert == nil {
+		tc.currentCert = &atomic.Pointer[tls.Certificate]{}
+	}
+	certCell := tc.currentCert
+	certCell.Store(&cert)
+
+	minVersion := tc.MinVersion
+	if minVersion == 0 {
+		minVersion = tls.VersionTLS12
+	}
 
 	// Create base TLS config using GetCertificate callback for hot-reload support
 	config := &tls.Config{
 		GetCertificate: func(*tls.ClientHelloInfo) (*tls.Certificate, error) {
-			return tc.currentCert.Load(), nil
+			return certCell.Load(), nil
 		},
-		MinVersion:               tc.MinVersion,
+		MinVersion:               minVersion,
 		MaxVersion:               tc.MaxVersion,
 		PreferServerCipherSuites: tc.PreferServerCipherSuites,
 		InsecureSkipVerify:       tc.InsecureSkipVerify,
@@ -225,6 +234,9 @@ func (tc *TLSConfig) ReloadCertificates() error {
 
 	// Atomically update the certificate - the GetCertificate callback
 	// will pick up the new cert on the next TLS handshake
+	if tc.currentCert == nil {
+		return fmt.Errorf("TLS configuration has not been built yet")
+	}
 	tc.currentCert.Store(&cert)
 
 	return nil
@@ -316,6 +328,7 @@ func (tc *TLSConfig) Clone() *TLSConfig {
 		MaxVersion:               tc.MaxVersion,
 		PreferServerCipherSuites: tc.PreferServerCipherSuites,
 		InsecureSkipVerify:       tc.InsecureSkipVerify,
+		currentCert:              tc.currentCert, // share the live certificate cell
 	}
 
 	// Copy cipher suites slice
